@@ -821,7 +821,10 @@ def _formats_case(world, c, i):
         if isinstance(x, list):
             return [fix_records(v) for v in x]
         return x
-    return dict(id=i, policy=pol, est=fix_records(est))
+    alt = _unmark(c["alt"])
+    if alt.get("annotations") == []:
+        alt["annotations"] = {}
+    return dict(id=i, policy=pol, est=fix_records(est), alt=fix_records(alt))
 
 
 def _mutate_formats(ev):
